@@ -27,6 +27,12 @@ def run(ctx, deep=False):
         "against the Lean model.")
     for gen in (4, 5):
         items = sockcheck.gen_scripts(ctx.seed * 23 + gen, [("close", n)])
+        # closed while the console is unreachable (a retry pending / an attempt in flight), opened again later when it is reachable, and the
+        # new session's first fault: recovered from as on a fresh object
+        for t in (1, 3, 15, 16, 17):
+            for fault in (("peer", "reset"), ("peer", "eof"), ("peer", "badcrc"), ("reset",)):
+                items.append(("close", [("net", "refuse"), ("open",), ("adv", t), ("close",), ("net", "accept"), ("adv", 8000), ("open",), ("heal",), ("adv", 8), fault,
+                                        ("adv", 24), ("heal",)]))
         good = sockcheck.judge_family(ctx, "C15", items, MONITORS, gen=gen, nontrivial=_nontrivial)
         sockcheck.validate_against_model(ctx, good, "AT%d" % gen)
     api_level(ctx, thorough)
